@@ -348,7 +348,12 @@ func (e *env) judge(d *desc) verdict {
 			return valid("restates", nil)
 		}
 
-		if m.msgByRID(d.newMsgRID) != nil {
+		if y := m.msgByRID(d.newMsgRID); y != nil {
+			if y.retired {
+				// whether the row of a deleted message still occupies its remote id depends on when it is purged
+				return ambiguous("id-change-to-id-of-deleted-message")
+			}
+
 			return refuse("remote-id-taken")
 		}
 
